@@ -1708,6 +1708,15 @@ func (mgr *Manager) converterOutputDropped() {
 func (mgr *Manager) invalidateConverters(updatedStreams *bitmask.LongBitmask) {
 	for _, converter := range mgr.converters {
 		invalidatedStreams := converter.InvalidateChangedStreams(updatedStreams)
+		// only convert the streams again that still match a tag the converter is attached to,
+		// the cache might hold output of a job that was running while the converter got detached
+		wantedStreams := bitmask.LongBitmask{}
+		for _, t := range mgr.tags {
+			if slices.Contains(t.converters, converter) {
+				wantedStreams.Or(t.Matches)
+			}
+		}
+		invalidatedStreams.And(wantedStreams)
 		mgr.streamsToConvert[converter.Name()].Or(invalidatedStreams)
 	}
 }
